@@ -86,8 +86,23 @@ impl<'a, 'tcx> FnCx<'a, 'tcx> {
                     ty::Closure(d, _) => (jstr(&self.cx.path(*d)), "null".to_string()),
                     _ => ("null".to_string(), "null".to_string()),
                 };
+                let evaluated = if t.is_integral() || t.is_bool() || t.is_char() {
+                    c.const_.try_eval_scalar_int(self.cx.tcx, self.te).map(|si| {
+                        if t.is_signed() {
+                            format!("{}_{}", si.to_int(si.size()), t)
+                        } else if t.is_bool() {
+                            (if si.to_uint(si.size()) != 0 { "true" } else { "false" }).to_string()
+                        } else {
+                            format!("{}_{}", si.to_uint(si.size()), t)
+                        }
+                    })
+                } else {
+                    None
+                };
                 let disp = if matches!(t.kind(), ty::FnDef(..)) {
                     String::from("fn")
+                } else if let Some(v) = evaluated {
+                    v
                 } else {
                     let mut v = ty::print::with_no_trimmed_paths!(format!("{}", c.const_));
                     if v.len() > 200 {
